@@ -90,9 +90,22 @@ def judge_c15(fs, trace, job, golden, ctx):
         return []
     dirs = designated_dirs(job.argv, job.cwd)
     vs = []
+    # "Written in this run" = part of this run's output.  A file the run left alone because it
+    # already held exactly the bytes the run produces (skip-if-unchanged) counts, attributed to the
+    # emitter that writes it in the job's own golden run.
+    outw = dict(trace.written)
+    emitter = dict(trace.emitter)
+    if golden and golden.get("status") == "ok":
+        gem = (golden.get("trace") or {}).get("emitter") or {}
+        for p, text in golden.get("files", {}).items():
+            if p not in outw:
+                have = fs.get(p)
+                if have is not None and bytes(have) == text.encode("latin-1"):
+                    outw[p] = bytes(have)
+                    emitter.setdefault(p, gem.get(p, "unknown"))
     by_emitter = {}
-    for p in sorted(trace.written):
-        tag = trace.emitter.get(p, "unknown")
+    for p in sorted(outw):
+        tag = emitter.get(p, "unknown")
         by_emitter.setdefault(tag, []).append(p)
         d = posixpath.dirname(p)
         b = posixpath.basename(p)
@@ -119,11 +132,11 @@ def judge_c15(fs, trace, job, golden, ctx):
         if not lp:
             continue
         written = sorted(by_emitter.get(tag, []))
-        if lp not in trace.written:
+        if lp not in outw:
             vs.append({"inv": "I15.2-list-not-written", "kind": key, "path": lp,
                        "detail": {"stale": fs.get(lp) is not None}})
             continue
-        toks = trace.written[lp].decode("utf-8", "replace").split()
+        toks = outw[lp].decode("utf-8", "replace").split()
         ntoks = sorted(fs.norm(t) for t in toks)
         if len(set(ntoks)) != len(ntoks):
             vs.append({"inv": "I15.2-list-duplicates", "kind": key, "path": lp,
@@ -144,13 +157,13 @@ def judge_c15(fs, trace, job, golden, ctx):
             vs.append({"inv": "I15.3-off-not-silent", "kind": lang, "path": files[0],
                        "detail": {"files": [posixpath.basename(f) for f in files][:8]}})
     if not flags["python"] and "python" not in m.get("nested_on", []):
-        for p in trace.written:
+        for p in outw:
             if posixpath.basename(p) == "setup.py":
                 vs.append({"inv": "I15.3-off-not-silent", "kind": "python", "path": p})
     # setup.py names exactly the Python extension sources written in this run
-    for p in trace.written:
-        if posixpath.basename(p) == "setup.py" and trace.emitter.get(p) == "wrapp":
-            named = set(re.findall(r"'([^'/]+\.(?:c|cpp|cxx|cc))'", trace.written[p].decode("utf-8", "replace")))
+    for p in outw:
+        if posixpath.basename(p) == "setup.py" and emitter.get(p) == "wrapp":
+            named = set(re.findall(r"'([^'/]+\.(?:c|cpp|cxx|cc))'", outw[p].decode("utf-8", "replace")))
             wrote = set(posixpath.basename(q) for q in by_emitter.get("wrapp", [])
                         if q.rsplit(".", 1)[-1] in ("c", "cpp", "cxx", "cc"))
             if named != wrote:
@@ -162,7 +175,7 @@ def judge_c15(fs, trace, job, golden, ctx):
     if ref and ref in ctx.goldens:
         g = ctx.goldens[ref]
         gcf = {p: t for p, t in g["files"].items() if g["trace"]["emitter"].get(p) in ("wrapc", "wrapf")}
-        mine = {p: trace.written[p] for tag in ("wrapc", "wrapf") for p in by_emitter.get(tag, [])}
+        mine = {p: outw[p] for tag in ("wrapc", "wrapf") for p in by_emitter.get(tag, [])}
         for p in sorted(set(gcf) | set(mine)):
             a = gcf.get(p)
             b = mine.get(p)
@@ -175,7 +188,7 @@ def judge_c15(fs, trace, job, golden, ctx):
     if toks:
         text = {}
         for lang in LANGS:
-            text[lang] = "\n".join(posixpath.basename(p) + "\n" + trace.written[p].decode("utf-8", "replace")
+            text[lang] = "\n".join(posixpath.basename(p) + "\n" + outw[p].decode("utf-8", "replace")
                                    for p in by_emitter.get(EMITTER[lang], [])).lower()
         # The Fortran module declares a bind(C) interface named c_<name> for every *C*
         # wrapper; that declaration belongs to the C wrapper.  A declaration "appears in the
